@@ -178,21 +178,36 @@ def _opstr(e):
     return e["a"]
 
 
-def _votes_start(ctx, prefix, quick):
-    """start TLC (LastPointVoteTrace) on the recorded votes traces, chunks side by side (they run while the
-    other relations are judged)"""
-    ex = ThreadPoolExecutor(max_workers=5 if quick else 8)
-    futs = []
-    for fam in ("f1", "f1late", "f2", "rnd"):
-        for ci, lines in enumerate(_split_trace(prefix + "." + fam, 25000 if quick else 40000)):
-            futs.append((fam, ci, lines, ex.submit(_vote_trace, ctx, "vt-%s-%d" % (fam, ci), lines)))
+FAMILIES = ("f1", "f1late", "f2", "rnd")
+
+
+def _votes_family(ctx, prefix, fam, args, quick):
+    """record one family of votes histories from the real box, then let TLC (LastPointVoteTrace) judge it in chunks"""
+    t = time.time()
+    ctx.vh(["C06", "votes", "--family", fam] + args + ["--out", prefix], timeout=6000)
+    rec = round(time.time() - t, 1)
+    chunks = _split_trace(prefix + "." + fam, 25000 if quick else 40000)
+    with ThreadPoolExecutor(max_workers=1 if quick else 3) as ex:
+        res = list(ex.map(lambda a: _vote_trace(ctx, "vt-%s-%d" % (fam, a[0]), a[1]), list(enumerate(chunks))))
+    return rec, [(fam, ci, lines, r) for (ci, lines), r in zip(enumerate(chunks), res)]
+
+
+def _votes_start(ctx, prefix, quick, args):
+    """the four families side by side (they run while the other relations are judged)"""
+    ex = ThreadPoolExecutor(max_workers=4)
+    futs = [(fam, ex.submit(_votes_family, ctx, prefix, fam, args, quick)) for fam in FAMILIES]
     ex.shutdown(wait=False)
     return futs
 
 
 def _votes_finish(ctx, futs, diverge):
     """the verdict on the recorded votes traces"""
-    done = [(fam, ci, lines, f.result()) for fam, ci, lines, f in futs]
+    done = []
+    ctx.extra["votes_recording_wall_s"] = {}
+    for fam, f in futs:
+        rec, res = f.result()
+        ctx.extra["votes_recording_wall_s"][fam] = rec
+        done += res
     stats = {"histories": 0, "votes": 0, "moves_by_vote_to_embedded_voteproof": 0, "moves_by_vote_to_counted_voteproof": 0,
              "steps_back_by_vote(suffrage-confirm)": 0, "moves_by_count": 0, "moves_by_setlastpoint": 0,
              "lower_height_voteproof_forwarded_by_suffrage_confirm_filter(position kept)": 0}
@@ -282,9 +297,8 @@ def run(ctx):
 
     vprefix = os.path.join(ctx.work, "votes")
     vmaxh, vmaxr, vnum, vlen = (2, 1, 150, 30) if quick else (3, 2, 1500, 40)
+    vfuts = _votes_start(ctx, vprefix, quick, ["--maxh", vmaxh, "--maxr", vmaxr, "--num", vnum, "--len", vlen])   # runs beside everything below
     with ThreadPoolExecutor(max_workers=8) as ex:
-        f_votes = ex.submit(lambda: ctx.vh(["C06", "votes", "--maxh", vmaxh, "--maxr", vmaxr, "--num", vnum, "--len", vlen,
-                                            "--out", vprefix], timeout=6000))
         f_dump = ex.submit(job, "dump", lambda c: c.tlc_dump_steps("LastPoint", cfg, timeout=1500, workers=4))
         f_rel = ex.submit(lambda: ctx.vh(["C06", "relation", "--maxh", maxh, "--maxr", maxr, "--out", rel], timeout=1500))
         f_mc = ex.submit(job, "lvmc", lambda c: c.tlc("LastVoteproofs", mcfg, timeout=1500, workers=4))
@@ -306,9 +320,6 @@ def run(ctx):
             # vacuity: a backward step and a majority-replaces-non-majority step must exist in the model
             names.append(("vac", ex.submit(job, "vac", lambda c: c.tlc("LastPoint", "LastPoint_vac.cfg", timeout=900, workers=2,
                                                                       args=["-continue"], allow_violation=True))))
-        f_votes.result()
-        ctx.extra["votes_recording_wall_s"] = round(time.time() - ctx.t0 - ctx.extra.get("build_s", 0), 1)
-        vfuts = _votes_start(ctx, vprefix, quick)      # runs beside everything below
         done = {}
         for name, f in names:
             out, sub = f.result()
